@@ -10,13 +10,14 @@
 (***************************************************************************)
 EXTENDS PrefixParser, Json
 
-CONSTANTS Alphabet,   \* "short" | "long" | "binary" | "mixed"
+CONSTANTS Alphabets,  \* subset of {"short", "long", "binary", "mixed"}: explored side by side (one initial state each)
           Depth, EmitDepth
 
-VARIABLES hist,    \* indices (into acts) of the accepted additions so far
-          acts,    \* the alphabet (constant)
+VARIABLES al,      \* the alphabet of this behaviour
+          hist,    \* indices (into acts) of the accepted additions so far
+          acts,    \* the alphabet's additions (constant)
           probes   \* identifiers whose reading is predicted in every CASE (constant)
-vars == <<units, order, others, shadow, pf, hist, acts, probes>>
+vars == <<units, order, others, shadow, pf, al, hist, acts, probes>>
 
 U(name, ap, kinds) == [op |-> "unit", name |-> Chars(name), text |-> name, ap |-> ap, kinds |-> kinds]
 O(name) == [op |-> "other", name |-> Chars(name), text |-> name, ap |-> "-", kinds |-> "-"]
@@ -43,23 +44,21 @@ MixedActs == << U("m", "short", "metric"), U("m", "both", "both"), U("m", "long"
                 U("illim", "both", "metric"), U("Gim", "long", "metric"), U("mm", "long", "both"),
                 O("mm"), O("dam"), O("Gim"), O("kibim"), O("millim"), O("_"), S("m"), S("dam") >>
 
-Acts == CASE Alphabet = "short" -> ShortActs [] Alphabet = "long" -> LongActs
-          [] Alphabet = "binary" -> BinaryActs [] OTHER -> MixedActs
+ActsOf(a) == CASE a = "short" -> ShortActs [] a = "long" -> LongActs [] a = "binary" -> BinaryActs [] a = "mixed" -> MixedActs
 
-Names == { Acts[i].name : i \in 1..Len(Acts) }
-Letters == UNION { Range(n) : n \in Names }
+NamesOf(A) == { A[i].name : i \in 1..Len(A) }
+LettersOf(A) == UNION { Range(n) : n \in NamesOf(A) }
 \* probe identifiers: every name, and every name behind every prefix spelling written with letters of the alphabet
 \* (any other spelling cannot take part in a collision between these names) plus two controls
-ProbeForms(F) == { f \in Range(F) : Range(f.text) \subseteq Letters \cup {"c", "M"} }
-ProbesFor(F) == Names \cup { f.text \o n : f \in ProbeForms(F), n \in Names }
+ProbesFor(N, L, F) == N \cup { f.text \o n : f \in { g \in Range(F) : Range(g.text) \subseteq L \cup {"c", "M"} }, n \in N }
 
-ASSUME PrintT(<<"META", ToJson([acts |-> [i \in 1..Len(Acts) |-> [op |-> Acts[i].op, name |-> Acts[i].text, ap |-> Acts[i].ap, kinds |-> Acts[i].kinds]],
-                               probes |-> { Str(p) : p \in ProbesFor(FormsOf(PrefixTable)) }])>>)
-
+\* (values bound once by \E: TLC would re-evaluate a definition at every use)
 Init == /\ PInit
         /\ hist = << >>
-        /\ acts = Acts
-        /\ probes = ProbesFor(FormsOf(PrefixTable))
+        /\ \E a \in Alphabets : \E A \in {ActsOf(a)} : \E N \in {NamesOf(A)} : \E L \in {LettersOf(A)} :
+             /\ al = a
+             /\ acts = A
+             /\ probes = ProbesFor(N, L, FormsOf(PrefixTable))
 
 Accepted(a) == CASE a.op = "unit" -> CanAddUnit(a.name, InfoOf(a))
                  [] a.op = "other" -> CanAddOther(a.name)
@@ -71,7 +70,7 @@ Apply(a) == CASE a.op = "unit" -> AddUnit(a.name, InfoOf(a))
 
 Next == /\ Len(hist) < Depth
         /\ \E i \in 1..Len(acts) : Apply(acts[i]) /\ hist' = Append(hist, i)
-        /\ UNCHANGED <<acts, probes>>
+        /\ UNCHANGED <<al, acts, probes>>
 
 Spec == Init /\ [][Next]_vars
 
@@ -82,8 +81,13 @@ ShadowLast == \A i, j \in 1..Len(hist) : (i < j /\ acts[hist[i]].op = "shadow") 
 
 ReadingJson(id) == { [id |-> Str(id), kind |-> r.kind, exp |-> r.exp, alias |-> Str(r.alias), unit |-> Str(r.unit)] : r \in Readings(id) }
 
+ActJson(a) == [op |-> a.op, name |-> a.text, ap |-> a.ap, kinds |-> a.kinds]
+EmitMeta == hist = << >> =>
+    PrintT(<<"META", ToJson([al |-> al, acts |-> [i \in 1..Len(acts) |-> ActJson(acts[i])], probes |-> { Str(p) : p \in probes },
+                             std |-> IF al = CHOOSE x \in Alphabets : TRUE THEN FormsOf(StdPrefixes) ELSE << >>])>>)
+
 EmitCase == (Len(hist) <= EmitDepth /\ ShadowLast) =>
-    PrintT(<<"CASE", ToJson([adds |-> hist,
+    PrintT(<<"CASE", ToJson([al |-> al, adds |-> hist,
                              rej |-> { i \in 1..Len(acts) : ~Accepted(acts[i]) },
                              oth |-> { Str(x) : x \in others \ shadow },
                              rd |-> UNION { ReadingJson(id) : id \in probes }])>>)
